@@ -124,13 +124,29 @@ def aliased(results, flags):
     return bad
 
 
+def endpoint(value8, rep):
+    """one end of a time range in the representation the API accepts: 'f' float seconds, 't' Timestamp,
+    'x' an invalid Timestamp() (no value), None stays None"""
+    if rep == 'x':
+        return Timestamp()
+    if value8 is None:
+        return None
+    return Timestamp(value8 / 8.0) if rep == 't' else value8 / 8.0
+
+
+def range_reps(spec):
+    both = 't' if spec.get('ts') else 'f'
+    return spec.get('rs', both), spec.get('re', both)
+
+
 def make_range(spec):
-    """spec: null or {start, end, abs, t0, ts}: values in eighths; ts = pass Timestamp objects instead of floats"""
+    """spec: null or {start, end, abs, t0, ts | rs, re}: values in eighths; abs True / False / None (inferred by
+    TimeRange); rs / re = representation of start / end ('f', 't', 'x'); ts = both Timestamps"""
     from fusion_engine_client.utils.time_range import TimeRange
     if spec is None:
         return None
-    conv = (lambda x: None if x is None else Timestamp(x / 8.0)) if spec.get('ts') else (lambda x: None if x is None else x / 8.0)
-    return TimeRange(start=conv(spec['start']), end=conv(spec['end']), absolute=spec['abs'],
+    rs, re_ = range_reps(spec)
+    return TimeRange(start=endpoint(spec['start'], rs), end=endpoint(spec['end'], re_), absolute=spec['abs'],
                      p1_t0=None if spec.get('t0') is None else Timestamp(spec['t0'] / 8.0))
 
 
